@@ -29,14 +29,18 @@ NameTypes == {tNS, tCNAME, tPTR}
 EncLabel(l) == U8(Len(l)) \o l
 EncName(nm) == Flat([i \in 1..Len(nm) |-> EncLabel(nm[i])]) \o <<0>>
 
+\* (d.pre / d.post: parameters this package has no field for - "mandatory" (key 0, sorts first), keys above ipv6hint - as
+\*  another encoder may send them: a decoder skips them)
+EncParams(ps) == Flat([i \in 1..Len(ps) |-> U16(ps[i].key) \o Vec16(ps[i].val)])
 EncHttps(d) ==
-  U16(d.prio) \o EncName(d.target)
+  U16(d.prio) \o EncName(d.target) \o EncParams(d.pre)
   \o (IF d.alpn # <<>> THEN U16(1) \o Vec16(Flat([i \in 1..Len(d.alpn) |-> Vec8(d.alpn[i])])) ELSE <<>>)
   \o (IF d.nodef THEN U16(2) \o U16(0) ELSE <<>>)
   \o (IF d.port > 0 THEN U16(3) \o Vec16(U16(d.port)) ELSE <<>>)
   \o (IF d.v4 # <<>> THEN U16(4) \o Vec16(Flat(d.v4)) ELSE <<>>)
   \o (IF d.ech # <<>> THEN U16(5) \o Vec16(d.ech) ELSE <<>>)
   \o (IF d.v6 # <<>> THEN U16(6) \o Vec16(Flat(d.v6)) ELSE <<>>)
+  \o EncParams(d.post)
 
 EncData(r) ==
   LET d == r.data IN
@@ -53,7 +57,9 @@ EncData(r) ==
 
 EncRR(r) == EncName(r.name) \o U16(r.type) \o U16(r.class) \o U32(r.ttl) \o Vec16(EncData(r))
 EncQ(q) == EncName(q.name) \o U16(q.type) \o U16(q.class)
-FlagWord(m) == m.qr * 32768 + m.opcode * 2048 + m.aa * 1024 + m.tc * 512 + m.rd * 256 + m.ra * 128 + m.rcode
+\* m.z: the three header bits between RA and RCODE (Z, AD, CD - RFC 1035 4.1.1, RFC 4035): set by other encoders (every
+\* validating resolver sets AD), not modelled by this package's Message, and no part of the RCODE
+FlagWord(m) == m.qr * 32768 + m.opcode * 2048 + m.aa * 1024 + m.tc * 512 + m.rd * 256 + m.ra * 128 + m.z * 16 + m.rcode
 Header(m) == U16(m.id) \o U16(FlagWord(m)) \o U16(Len(m.question)) \o U16(Len(m.answer)) \o U16(Len(m.authority)) \o U16(Len(m.additional))
 AllRR(m) == m.answer \o m.authority \o m.additional
 EncMsg(m) == Header(m) \o Flat([i \in 1..Len(m.question) |-> EncQ(m.question[i])]) \o Flat([i \in 1..Len(AllRR(m)) |-> EncRR(AllRR(m)[i])])
@@ -154,7 +160,7 @@ DecMsg(b) ==
   LET n == DecMany(b, a.p, ns.v, FALSE, <<>>) IN IF ~n.ok THEN Err ELSE
   LET r == DecMany(b, n.p, ar.v, FALSE, <<>>) IN IF ~r.ok \/ r.p # Len(b) THEN Err ELSE
   [ok |-> TRUE, v |-> [id |-> id.v, qr |-> fl.v \div 32768, opcode |-> (fl.v \div 2048) % 16, aa |-> (fl.v \div 1024) % 2, tc |-> (fl.v \div 512) % 2,
-                       rd |-> (fl.v \div 256) % 2, ra |-> (fl.v \div 128) % 2, rcode |-> fl.v % 16,
+                       rd |-> (fl.v \div 256) % 2, ra |-> (fl.v \div 128) % 2, z |-> 0, rcode |-> fl.v % 16,
                        question |-> q.v, answer |-> a.v, authority |-> n.v, additional |-> r.v]]
 
 \* the message as DecMsg sees it: RDATA of the types it does not take apart stays as (plain-encoded) bytes
@@ -162,7 +168,7 @@ SemiRR(r) == [name |-> r.name, type |-> r.type, class |-> r.class, ttl |-> r.ttl
               data |-> IF r.type \in NameTypes THEN [name |-> r.data.name]
                        ELSE IF r.type = tMX THEN [pref |-> r.data.pref, name |-> r.data.name]
                        ELSE [raw |-> EncData(r)]]
-Semi(m) == [m EXCEPT !.answer = [i \in DOMAIN m.answer |-> SemiRR(m.answer[i])],
+Semi(m) == [m EXCEPT !.z = 0, !.answer = [i \in DOMAIN m.answer |-> SemiRR(m.answer[i])],
                      !.authority = [i \in DOMAIN m.authority |-> SemiRR(m.authority[i])],
                      !.additional = [i \in DOMAIN m.additional |-> SemiRR(m.additional[i])]]
 
